@@ -247,6 +247,20 @@ CLAIMED = {
               "Command.from_frame, assumed asyncio contracts; z3 QF_BV",
     note=TB + "; the timer is an input (which of 'timeout' / 'report' happens first is not decided: real time is out of "
          "reach); callbacks are recorded at call_soon, their later execution by the event loop is assumed"),
+ "C16": dict(
+    category="proof",
+    text="Sequential part: the real Tridonic _send_raw is executed against every sequence of up to four well-formed gateway "
+         "reports for its sequence number (transmission echoes, 8-bit value, no frame, framing error, loss of the gateway) and "
+         "proved to return None exactly for commands without answer and otherwise an instance of the command's own response "
+         "class wrapping nothing / BackwardFrame(value) / a framing-error frame according to the last outcome report, with the "
+         "in-flight slot released; _handle_read is proved to route a response report to the command registered under its "
+         "sequence number and to no other; hasseb status bytes and LUBA / SCI send() (silent bus, answer, 0..2 stale answers "
+         "queued beforehand, timeouts) likewise; daliserver replies in C18.",
+    design_ref="DESIGN.md 6 (C16), 3.9",
+    technique="contract-based deductive verification: coroutines executed sequentially against assumed asyncio contracts with "
+              "the gateway's reports as environment input; z3 QF_BV",
+    note=TB + "; pairing across concurrently running callers rests on the routing invariant + assumed mutual exclusion of "
+         "asyncio primitives (not proved); ATX LED hat driver not covered"),
 }
 
 NA_REASON = "check under construction in this round (no obligations built yet); see DESIGN.md section 6"
